@@ -598,6 +598,37 @@ pub fn payload(rng: &mut Rng, c: &Corpus, npool: usize, nf: usize, focus: &str) 
     }
 }
 
+/// Byte strings for the uncompressed deserialisers: x || y (32 LE bytes each) of
+/// valid points, of on-curve points outside the group, and arbitrary strings.
+pub fn uncompressed_bytes(rng: &mut Rng, c: &Corpus) -> Vec<u8> {
+    let f = fq();
+    let v = pick_valid(rng, c);
+    let p = rd::decode(&v).unwrap_or_else(|_| rd::identity());
+    let xy = |p: &rd::Pt| {
+        let mut b = f.to_le(&p.x);
+        b.extend_from_slice(&f.to_le(&p.y));
+        b
+    };
+    match rng.below(10) {
+        0 | 1 => xy(&p),
+        2 | 3 => xy(&rd::add(&p, &rd::t4())),
+        4 => xy(&rd::t4()),
+        5 => xy(&rd::neg(&rd::t4())),
+        6 => xy(&rd::add(&p, &rd::t2())),
+        7 => {
+            let mut b = xy(&p);
+            let i = rng.usize_below(b.len());
+            b[i] ^= 1 << rng.below(8);
+            b
+        }
+        8 => v.to_vec(),
+        _ => {
+            let l = *rng.pick(&[0usize, 31, 32, 63, 64, 64, 65, 96]);
+            rng.bytes(l)
+        }
+    }
+}
+
 pub fn gen_run(rng: &mut Rng, c: &Corpus, focus: &str) -> IoRun {
     let sw = Swarm::draw(rng);
     let mut run = IoRun::default();
@@ -664,6 +695,17 @@ pub fn gen_run(rng: &mut Rng, c: &Corpus, focus: &str) -> IoRun {
                 4 => ChanFault::Duplicate { seg },
                 5 => ChanFault::Swap { seg },
                 _ => ChanFault::Drop { seg },
+            });
+        }
+    }
+    if matches!(focus, "C02" | "C06") && rng.chance(1, 3) {
+        for _ in 0..rng.range(1, 2) {
+            let b = uncompressed_bytes(rng, c);
+            let span = b.len();
+            run.uncompressed.push(Uncompressed {
+                bytes: hex(&b),
+                as_: *rng.pick(&[ElemAs::Element, ElemAs::Affine, ElemAs::Encoding]),
+                rplan: io_plan(rng, &sw, span),
             });
         }
     }
